@@ -5,6 +5,7 @@ package elasticquota
 import (
 	"context"
 	"fmt"
+	"os"
 	"sort"
 	"sync"
 	"sync/atomic"
@@ -31,6 +32,36 @@ import (
 // c03GuaranteeGate switches the alpha feature gate ElasticQuotaGuaranteeUsage on for the rest of the case (the helper the
 // package's own tests use) and tells the model (`gate 1`: quota objects yield allow-lent = false).  The property does not
 // mention the gate: every oracle clause - the non-preemptible bound = the DECLARED min in particular - stays as it is.
+// c03GateRT: run the gated cases also with the runtime quota on (off by default, see c03Case).
+func c03GateRT() bool { return os.Getenv("VERIF_C03_GATE_RT") == "1" }
+
+// minSumsLegal: the webhook's checkMinQuotaValidate on the registered tree - the min entries of the child groups of every
+// group (root excluded) add up to at most the group's own min, on every dimension a child declares.  Diagnostic only
+// (quoted in the runtime-above-max / used-above-max messages): the generators do not keep this rule.
+func (w *c03World) minSumsLegal() bool {
+	for _, id := range w.order {
+		var sum [c03D]int64
+		var has [c03D]bool
+		for _, c := range w.order {
+			if w.quotas[c].parent != id {
+				continue
+			}
+			for d := 0; d < c03D; d++ {
+				if w.quotas[c].min.has[d] {
+					has[d] = true
+					sum[d] += w.quotas[c].min.v[d]
+				}
+			}
+		}
+		for d := 0; d < c03D; d++ {
+			if has[d] && (!w.quotas[id].min.has[d] || sum[d] > w.quotas[id].min.v[d]) {
+				return false
+			}
+		}
+	}
+	return true
+}
+
 func c03GuaranteeGate(t *testing.T, h *vHarness, on bool) func() {
 	h.Tag(fmt.Sprintf("gate:guarantee-usage:%d", vB(on)))
 	if !on {
@@ -1036,7 +1067,7 @@ func (w *c03World) dump() {
 		if w.cfgCP || !w.hasChild(id) {
 			for d := 0; d < c03D; d++ {
 				if q.max.has[d] && u.v[d] > q.max.v[d] {
-					w.h.Fail("C03:used-above-max", "group %d dim %d used %d > max %d (rt=%v cp=%v)", id, d, u.v[d], q.max.v[d], w.cfgRT, w.cfgCP)
+					w.h.Fail("C03:used-above-max", "group %d dim %d used %d > max %d (rt=%v cp=%v; children's min sums webhook-legal: %v)", id, d, u.v[d], q.max.v[d], w.cfgRT, w.cfgCP, w.minSumsLegal())
 				}
 			}
 		}
@@ -1106,7 +1137,7 @@ func (w *c03World) attempt(p *c03Pod) bool {
 				if !full.has[d] || !limMasked[g].has[d] {
 					w.h.Fail("C03:missing-dimension", "runtime of group %d lacks declared dim %d", g, d)
 				} else if full.v[d] > q.max.v[d] {
-					w.h.Fail("C03:runtime-above-max", "group %d dim %d runtime %d > max %d", g, d, full.v[d], q.max.v[d])
+					w.h.Fail("C03:runtime-above-max", "group %d dim %d runtime %d > max %d (children's min sums webhook-legal: %v)", g, d, full.v[d], q.max.v[d], w.minSumsLegal())
 				}
 			}
 		}
@@ -1126,6 +1157,15 @@ func (w *c03World) attempt(p *c03Pod) bool {
 	code := int(st.Code())
 	w.h.Obs("v %d", code)
 	w.h.Tag(fmt.Sprintf("verdict:rt%d-cp%d:%d", vB(w.cfgRT), vB(w.cfgCP), code))
+	emptyM := true
+	for d := 0; d < c03D; d++ {
+		if w.quotas[p.quota].max.has[d] && p.req.has[d] {
+			emptyM = false
+		}
+	}
+	if emptyM {
+		w.h.Tag(fmt.Sprintf("verdict:empty-masked-request:%d", code))
+	}
 
 	if w.acctBroken || w.shifted() {
 		return fwktype.Code(code) == fwktype.Success // correspondence only
@@ -1241,7 +1281,10 @@ func c03Case(t *testing.T, h *vHarness, idx int, steps int) {
 	defer h.End()
 	// the alpha gate ElasticQuotaGuaranteeUsage is on in a quarter of the cases (every fourth block of four = every switch
 	// combination); the case's PRNG stream does not depend on it
-	gu := (idx>>2)&3 == 3
+	// (every second block of four cases that run with the runtime quota off = a quarter of all cases, every switch
+	// combination of them).  Gate on + runtime quota ON is off by default: there the unchanged tree breaks RuntimeOK
+	// (C03:runtime-above-max, then C03:used-above-max; see props/C03.json level_note) - VERIF_C03_GATE_RT=1 switches it on.
+	gu := (idx>>2)&1 == 1 && (idx&1 == 0 || c03GateRT())
 	h.Op("dims %d", c03D)
 	defer c03GuaranteeGate(t, h, gu)()
 	suit := newPluginTestSuit(t, nil)
@@ -1334,6 +1377,17 @@ func c03Case(t *testing.T, h *vHarness, idx int, steps int) {
 			if !w.quotas[p.quota].isParent {
 				break
 			}
+		}
+		if r.Chance(1, 12) {
+			// a pod whose MASKED request is empty: it asks for nothing at all, or only for dimensions its group does not
+			// declare.  PreFilter still compares used + nothing with the limit (and non-preemptible used with min): such a
+			// pod is rejected while the group shows more than its (shrunk runtime / lowered max) limit.
+			for d := 0; d < c03D; d++ {
+				if w.quotas[p.quota].max.has[d] || r.Bool() {
+					p.req.has[d], p.req.v[d] = false, 0
+				}
+			}
+			h.Tag("pod:empty-masked-request")
 		}
 		p.obj = c03MakePod(r, p)
 		w.pods[p.id] = p
@@ -1492,6 +1546,25 @@ func c03Case(t *testing.T, h *vHarness, idx int, steps int) {
 				}
 			}
 			w.setQuota(q)
+			if stream == "wild" && len(w.pods) < 14 && r.Bool() {
+				// right after limits were (possibly) lowered below the usage a pod that asks for nothing asks for admission:
+				// PreFilter compares used + nothing with the limit, so it is rejected while the group is over
+				p := &c03Pod{id: nextPod, quota: q.id, np: r.Bool()}
+				nextPod++
+				p.obj = c03MakePod(r, p)
+				w.pods[p.id] = p
+				h.Op("poddef %d %d %d %s", p.id, p.quota, vB(p.np), p.req.toks())
+				w.dump()
+				addPod(p)
+				h.Tag("pod:empty-masked-request")
+				pending = 0
+				if w.attempt(p) {
+					admitted++
+					pending = p.id
+				} else {
+					rejected++
+				}
+			}
 		case k < 85:
 			// late registration of a group
 			for id := 1; id <= nq; id++ {
@@ -1539,6 +1612,208 @@ func c03Case(t *testing.T, h *vHarness, idx int, steps int) {
 		h.Nontrivial()
 	}
 	h.Tag(fmt.Sprintf("groups:%d", len(w.order)))
+}
+
+// TestVerifC03Guarantee: the alpha feature gate ElasticQuotaGuaranteeUsage is ON in every case.  Small worlds in which
+// preemptible pods push a group's used (= Allocated, hence Guaranteed = max(Allocated, min)) above its min and
+// non-preemptible pods then ask for admission: the bound of the non-preemptible check is the DECLARED min whatever the
+// gate says ("for a non-preemptible pod only if non-preemptible usage stays within min").
+func TestVerifC03Guarantee(t *testing.T) {
+	h := vOpen("C03")
+	if h == nil {
+		t.Skip("VERIF_OUT not set")
+	}
+	c03Names = nil
+	n := h.N(24, 240)
+	for idx := 0; idx < n; idx++ {
+		c03GuaranteeCase(t, h, idx)
+	}
+	h.Close("feature gate ElasticQuotaGuaranteeUsage on in every case; root <- 1 (is-parent) <- {2,3} or root <- {2,3}; min well below max; 26 events: " +
+		"scheduling cycles (PreFilter, Reserve iff admitted) of new pods - preemptible ones first, non-preemptible ones (2/3) once a group's used " +
+		"passed its min -, Unreserve, OnPodDelete, min / max raise; check-parent = case index mod 2, runtime quota off (on for odd idx/2 only with " +
+		"VERIF_C03_GATE_RT=1); cases 0-1 are directed: min cpu 2, max cpu 12, preemptible pods use cpu 6, two non-preemptible pods of cpu 2 (the second must be " +
+		"rejected for min: 4 > 2, although used 8 + 2 is within max); non-trivial = a non-preemptible pod rejected for min while its group's used exceeds min; distinct by op lines")
+}
+
+func c03GuaranteeCase(t *testing.T, h *vHarness, idx int) {
+	r := h.Begin(idx)
+	if r == nil {
+		return
+	}
+	defer h.End()
+	h.Op("dims %d", c03D)
+	defer c03GuaranteeGate(t, h, true)()
+	suit := newPluginTestSuit(t, nil)
+	var lvl klog.Level
+	_ = lvl.Set("0")
+	gp := suit.createPlugin(t).(*Plugin)
+	w := &c03World{t: t, h: h, gp: gp, cfgRT: (idx>>1)&1 == 1 && c03GateRT(), cfgCP: idx&1 == 1, quotas: map[int]*c03Quota{}, pods: map[int]*c03Pod{},
+		stream: "guarantee", closedLoop: true}
+	gp.pluginArgs.EnableRuntimeQuota = w.cfgRT
+	gp.pluginArgs.EnableCheckParentQuota = w.cfgCP
+	h.Tag("stream:guarantee")
+	h.Tag(fmt.Sprintf("switches:rt%d-cp%d", vB(w.cfgRT), vB(w.cfgCP)))
+	directed := idx < 2
+	all := [c03D]bool{true, true, true}
+	flat := !directed && r.Chance(1, 3)
+	if !flat {
+		w.quotas[1] = &c03Quota{id: 1, isParent: true, lent: r.Bool(), max: c03RL{has: all, v: [c03D]int64{16000, 32, 8}}, min: c03RL{has: all, v: [c03D]int64{8000, 16, 4}}}
+	}
+	for id := 2; id <= 3; id++ {
+		q := &c03Quota{id: id, lent: r.Bool(), max: c03RL{has: all}, min: c03RL{has: all}}
+		if !flat {
+			q.parent = 1
+		}
+		if directed {
+			q.max.v = [c03D]int64{12000, 16, 4}
+			q.min.v = [c03D]int64{2000, 8, 2}
+		} else {
+			q.max.v = [c03D]int64{int64(r.Range(8, 16)) * 500, int64(r.Range(6, 16)), int64(r.Range(1, 4))}
+			// children's min sums stay within the parent's min (webhook-legal)
+			q.min.v = [c03D]int64{int64(r.Range(0, 4)) * 500, int64(r.Range(0, 4)), int64(r.Range(0, 1))}
+			q.min.has[r.Intn(c03D)] = !r.Chance(1, 8)
+		}
+		w.quotas[id] = q
+	}
+	capacity := c03RL{has: all, v: [c03D]int64{40000, 80, 16}}
+	w.rv++
+	h.Op("cap %s", vInts(capacity.v[:]))
+	gp.OnNodeAdd(c03Node(capacity, w.rv))
+	w.dump()
+	for id := 1; id <= 3; id++ {
+		if w.quotas[id] != nil {
+			w.setQuota(w.quotas[id])
+		}
+	}
+	nextPod := 1
+	interesting := false
+	cycle := func(g int, np bool, req c03RL) {
+		p := &c03Pod{id: nextPod, quota: g, np: np, req: req}
+		nextPod++
+		p.obj = c03MakePod(r, p)
+		w.pods[p.id] = p
+		h.Op("poddef %d %d %d %s", p.id, p.quota, vB(p.np), p.req.toks())
+		w.dump()
+		h.Op("podadd %d", p.id)
+		gp.OnPodAdd(p.obj)
+		p.inCache = true
+		w.dump()
+		q := w.quotas[g]
+		over := false
+		used := w.usedO(g, false)
+		for d := 0; d < c03D; d++ {
+			if q.min.has[d] && used[d] > q.min.v[d] {
+				over = true
+			}
+		}
+		if over {
+			h.Tag(fmt.Sprintf("guarantee:attempt-with-used-above-min:np%d", vB(np)))
+		}
+		if !w.attempt(p) {
+			if np && over {
+				interesting = true
+			}
+			return
+		}
+		h.Op("res %d", p.id)
+		var st *fwktype.Status
+		if h.Guard(func() { st = gp.Reserve(context.TODO(), framework.NewCycleState(), p.obj, "n1") }) {
+			h.Obs("panic")
+			return
+		}
+		if !st.IsSuccess() {
+			h.Fail("C03:reserve-failed", "Reserve returned %v", st.Code())
+		}
+		p.assigned = true
+		w.dump()
+	}
+	if directed {
+		cpu := func(v int64) c03RL { return c03RL{has: [c03D]bool{true, false, false}, v: [c03D]int64{v, 0, 0}} }
+		for i := 0; i < 3; i++ {
+			cycle(2, false, cpu(2000))
+		}
+		cycle(2, true, cpu(2000))
+		cycle(2, true, cpu(2000)) // non-preemptible used 2 + 2 > min 2: must be rejected
+		cycle(2, false, cpu(2000))
+		cycle(2, false, cpu(2000))
+		cycle(2, false, cpu(2000)) // used 12 + 2 > max 12: must be rejected
+		if interesting {
+			h.Nontrivial()
+		}
+		return
+	}
+	pickAssigned := func() *c03Pod {
+		var ids []int
+		for id, p := range w.pods {
+			if p.assigned {
+				ids = append(ids, id)
+			}
+		}
+		if len(ids) == 0 {
+			return nil
+		}
+		sort.Ints(ids)
+		return w.pods[ids[r.Intn(len(ids))]]
+	}
+	for step := 0; step < 26; step++ {
+		g := 2 + r.Intn(2)
+		switch k := r.Intn(100); {
+		case k < 72:
+			req := c03GenReq(r)
+			np := false
+			used, q := w.usedO(g, false), w.quotas[g]
+			for d := 0; d < c03D; d++ {
+				if q.min.has[d] && used[d] > q.min.v[d] && r.Chance(2, 3) {
+					np = true
+				}
+			}
+			if r.Chance(1, 8) {
+				np = !np
+			}
+			if np && r.Bool() {
+				// small requests: below what min leaves, or just above
+				for d := 0; d < c03D; d++ {
+					if req.has[d] && d > 0 {
+						req.v[d] = int64(r.Range(0, 1))
+					} else if req.has[d] {
+						req.v[d] = r.Pick([]int64{250, 500})
+					}
+				}
+			}
+			cycle(g, np, req)
+		case k < 82:
+			if p := pickAssigned(); p != nil {
+				h.Op("unres %d", p.id)
+				gp.Unreserve(context.TODO(), framework.NewCycleState(), p.obj, "n1")
+				p.assigned = false
+				w.dump()
+			}
+		case k < 90:
+			if p := pickAssigned(); p != nil {
+				h.Op("del %d", p.id)
+				gp.OnPodDelete(p.obj)
+				p.inCache, p.assigned = false, false
+				w.dump()
+			}
+		default:
+			// raise max, or min within the parent's budget
+			q := w.quotas[g]
+			d := r.Intn(c03D)
+			unit := int64(1)
+			if d == 0 {
+				unit = 500
+			}
+			if r.Bool() {
+				q.max.v[d] += unit
+			} else if q.min.has[d] && q.min.v[d]+unit <= q.max.v[d] && q.min.v[d] < 2*unit {
+				q.min.v[d] += unit
+			}
+			w.setQuota(q)
+		}
+	}
+	if interesting {
+		h.Nontrivial()
+	}
 }
 
 // chainPlan is chain() over the planned tree (before registration).
